@@ -72,6 +72,9 @@ def case_extrap(col, p):
     import dadi
     k, order, deg, mode, rtype, call, xsrc = p['k'], p['order'], p['deg'], p['mode'], p['rtype'], p['call'], p['xsrc']
     seed = p.get('seed', 0)
+    override = xsrc == 'dyadic_override'       # explicit x list given although the results carry their own extrap_x: the explicit list wins
+    if override:
+        xsrc = 'dyadic'
     xmap = {pts: x_of(pts, xsrc) for pts in order}
 
     def model(scale, pts):
@@ -79,7 +82,7 @@ def case_extrap(col, p):
         if rtype == 'spectrum':
             fs = dadi.Spectrum(y, mask_corners=True, pop_ids=['popA'])
             fs.mask[2] = True
-            fs.extrap_x = xmap[pts]
+            fs.extrap_x = xmap[pts] if not override else x_of(pts, 'grid')
             return fs
         if xsrc == 'attr':
             class A(np.ndarray):
@@ -323,7 +326,7 @@ def run(ctx):
         for order in orders:
             for deg in degs:
                 for mode in ('lin', 'log'):
-                    for rtype, xsrc in (('array', 'dyadic'), ('array', 'grid'), ('array', 'attr'), ('spectrum', 'grid')):
+                    for rtype, xsrc in (('array', 'dyadic'), ('array', 'grid'), ('array', 'attr'), ('spectrum', 'grid'), ('spectrum', 'dyadic_override')):
                         for call in ('pos', 'kw'):
                             if k == 6 and call == 'kw' and order != sorted(order):
                                 continue
